@@ -13,8 +13,10 @@ class Ret(Exception):
 
 
 class PieceEval:
-    def __init__(self, func, args, members=None, stubs=None):
+    def __init__(self, func, args, members=None, stubs=None, prog=None, depth=0):
         self.stubs = stubs or {}
+        self.prog = prog
+        self.depth = depth
         self._members = members or {}
         """args: parameter name -> int | list (vector of ints, also used for output vectors)"""
         self.f = func
@@ -80,6 +82,32 @@ class PieceEval:
             self.vec[s['o']['id']].append(evalx.wrap(self.ev(s['a'][0]), 'unsigned char'))
         elif k == 'opcall' and s.get('op') == '<<':
             pass        # diagnostics
+        elif k == 'mcall' and s['f'].split('::')[-1] == 'insert' and s['o'].get('k') == 'var' and s['o']['id'] in self.vec and len(s['a']) == 3:
+            # v.insert(v.end(), w.begin(), w.end()): append a whole vector
+            def unconv(x):
+                while isinstance(x, dict) and x.get('k') == 'ctor' and len(x.get('a', [])) == 1:
+                    x = x['a'][0]       # iterator conversion
+                return x
+
+            def whole(x, which):
+                x = unconv(x)
+                return isinstance(x, dict) and x.get('k') == 'mcall' and x['f'].split('::')[-1] == which and x['o'].get('k') == 'var'
+            a0, a1, a2 = [unconv(x) for x in s['a']]
+            if whole(a0, 'end') and a0['o']['id'] == s['o']['id'] and whole(a1, 'begin') and whole(a2, 'end') and a1['o']['id'] == a2['o']['id'] and a1['o']['id'] in self.vec:
+                self.vec[s['o']['id']].extend(self.vec[a1['o']['id']])
+            else:
+                raise evalx.NotEvaluable('insert form')
+        elif k == 'call' and self.prog is not None and s.get('fid') in self.prog.funcs and self.depth < 3:
+            # a call of another loop-free definition of the library: evaluate it piecewise as well
+            g = self.prog.funcs[s['fid']]
+            args = {}
+            sub = PieceEval(g, {}, prog=self.prog, depth=self.depth + 1, stubs=self.stubs)
+            for prm, ae in zip(g['params'], s['a']):
+                if isinstance(ae, dict) and ae.get('k') == 'var' and ae['id'] in self.vec:
+                    sub.vec[prm['id']] = self.vec[ae['id']]
+                else:
+                    sub.env[prm['id']] = evalx.wrap(self.ev(ae), prm['t'].replace('&', '').strip())
+            sub.run()
         elif k in ('for', 'while', 'do', 'forrange', 'switch', 'try'):
             raise evalx.NotEvaluable('not a loop-free definition: ' + k)
         else:
